@@ -6,6 +6,75 @@ import os, re, sys
 HERE = os.path.dirname(os.path.dirname(os.path.abspath(__file__)))
 
 SPEC = {
+ 'C10': dict(title='SVG output paints exactly the dark modules; page size, colours, escaping',
+   imports='Ref.IsoData Model.Iter Model.Color Model.Svg Ref.SvgReader Lemmas.SvgLemmas',
+   intro='''Model/Svg.v = write_svg (all options, two-colour and per-module-type paths) as exact text; Ref/SvgReader.v = independent XML 1.0 / SVG 1.1 reader
+   (lexer, entity decoding, path data M m L l H h V v Z z, group / path scale transforms) and the geometry of unit-wide butt-capped strokes.
+   For every matrix, integer scale z >= 1 and border: reading the written document gives one stroked path whose cells are exactly the dark modules shifted
+   by the border (NoDup, inside the page), page = (size + 2b) * z, stroke = web colour of the dark colour, a light colour is a filled rectangle over the whole
+   page (whenever a light colour is given, independent of draw_transparent: svg_page), title / desc / id / class round-trip through the reader.
+   Numbers are in HALF units.  Fractional scales: reader oracle only (Ref/SvgReaderDec.v).  EPS / PDF / PGF: Props/C10_vector.v.''',
+   items=[('Lemmas/SvgLemmas.v', ['parse_path_data_roundtrip', 'rows_dark_spec', 'escape_spec', 'quoteattr_spec', 'svg_dark_cells', 'svg_page', 'svg_escape',
+                                  'svg_title_escaped', 'svg_desc_escaped', 'svg_colourful_cells', 'colourful_cell_in_page'])]),
+ 'C10_vector': dict(title='EPS, PDF and PGF/TikZ outputs paint exactly the dark modules; PDF /Length and cross-reference table',
+   imports='Ref.IsoData Model.Iter Model.Color Model.Vector Ref.VectorReader Lemmas.VectorLemmas',
+   intro='''Model/Vector.v = write_eps / write_pdf (deflate and str(float) of colour components are parameters) / write_tex as exact bytes;
+   Ref/VectorReader.v = independent readers (DSC header + PostScript subset, PDF file structure + content stream operators, PGF basic layer) returning the
+   painting in device space as exact rationals.  For every matrix, integer scale s >= 1 and border: one stroke of width s whose cells
+   (VectorReader.stroke_cells) are VectorLemmas.dark_cells m b, BoundingBox / MediaBox = (size + 2b) * s, optional page fill with the light colour first,
+   /Length = stream length and every xref entry of objects 1..5 points at "n 0 obj" for ANY stream bytes; refusals are exactly the invalid scale / border /
+   colours (ValueError).  The statements are the types of the lemma constants (printed by Check): several live in Sections over deflate / color_text.''',
+   items=[('Lemmas/VectorLemmas.v', ['@dark_cells_spec', '@dark_cells_NoDup', '@dark_cells_on_page', '@nice_segs_cover', '@tex_segs_cover',
+                                     '@pdf_dark_cells', '@pdf_page', '@pdf_length_ok', '@pdf_xref_ok', '@write_pdf_errors', '@write_pdf_ValueError_iff',
+                                     '@eps_dark_cells', '@write_eps_errors', '@write_eps_ValueError_iff',
+                                     '@tex_dark_cells', '@write_tex_errors', '@write_tex_ValueError_iff'])]),
+ 'C16': dict(title='helper payloads parse back to exactly the given fields',
+   imports='Ref.IsoData Ref.Spec Model.Bits Model.Segment Model.Version Model.Color Model.Helpers Ref.HelpersReader Lemmas.VersionLemmas Lemmas.HelpersLemmas Lemmas.EpcVersionLemma',
+   intro='''Model/Helpers.v = make_wifi_data, make_mecard_data, make_vcard_data, make_geo_data, make_make_email_data, _make_epc_qr_data over strings of
+   arbitrary code points; Ref/HelpersReader.v = independent readers written from the format descriptions (KEY:value; with backslash escapes, RFC 2425/2426
+   content lines, RFC 3986 percent-encoding + RFC 3629 UTF-8, RFC 5870, EPC069-12 line layout).  Hypotheses that stay visible in the statements: vCard
+   birthday / rev / coordinates are inserted verbatim (no CR/LF, guaranteed by the date regex ending in \\Z and by str(float)); mailto recipients are inserted
+   verbatim (no '?' / '&'); EPC fields contain no LF.  CPython oracle inputs of the model: str.upper(), the date regex, str(float), codec encodability.
+   That the factory symbols decode to these payloads is C01 (Props/C01.v) applied to the payload.  EPC: a byte segment of <= 331 bytes at level M gets
+   a version in 1..13 (epc_version_le_13; 13-M holds exactly 331 bytes); level M is the requested level because boosting is switched off.''',
+   items=[('Lemmas/HelpersLemmas.v', ['mecard_escape_roundtrip', 'escape_mecard_no_unescaped_delims', 'escape_mecard_even_trailing_backslashes',
+                                      'wifi_fields', 'wifi_fields_ascii', 'mecard_fields', 'mecard_adr_components',
+                                      'escape_vcard_no_crlf', 'escape_vcard_name_no_crlf', 'vcard_escape_roundtrip', 'vcard_escape_name_roundtrip',
+                                      'vcard_struct_roundtrip', 'vcard_one_line_per_value', 'vcard_errors',
+                                      'geo_uri', 'utf8_roundtrip', 'unquote_quote_bytes', 'quote_utf8_roundtrip', 'mailto_uri', 'mailto_errors',
+                                      'epc_amount_value', 'epc_amount_exact', '@epc_layout', '@epc_errors', '@epc_refusals_lengths',
+                                      '@epc_refusals_amount', '@epc_refusals_size']),
+          ('Lemmas/EpcVersionLemma.v', ['epc_version_finite', 'epc_version_le_13'])]),
+ 'C09_netpbm': dict(title='PBM (P4/P1), PAM and PPM outputs',
+   imports='Ref.IsoData Ref.Pixel Model.Iter Model.Color Model.Netpbm Ref.NetpbmReader Lemmas.NetpbmLemmas',
+   intro='''Companion of Props/C09.v for the Netpbm family: independent readers (Ref/NetpbmReader.v, strict: the raster must have exactly the
+   declared size) applied to the writer models give the pixel grid; PAM: every tuple denotes the requested dark / light RGBA (transparent when light is None).''',
+   items=[('Lemmas/NetpbmLemmas.v', ['pbm_roundtrip', 'pack_row_unpack', 'pack_row_padding', 'pam_roundtrip', 'ppm_roundtrip', 'write_pbm_error',
+                                     'write_pam_error_iff', 'write_pam_only_ValueError', 'write_ppm_colorful_only_ValueError'])]),
+ 'C09': dict(title='raster and text outputs depict exactly the symbol with its quiet zone',
+   imports='Ref.IsoData Ref.Pixel Model.Iter Model.Color Model.TextFmt Ref.TextFmtReader Model.Png Ref.PngReader Lemmas.IterLemmas Lemmas.TextFmtLemmas Lemmas.PngLemmas',
+   intro='''pixel_grid (Ref/Pixel.v): pixel (x, y) of the (size+2b)*s square shows module (y div s - b, x div s - b), light outside the symbol.
+   For every format: an executable model of segno's writer and an INDEPENDENT reader written from the format definition; reader (writer m) =
+   pixel_grid, with the declared dimensions equal to the data dimensions, for matrices / scales / borders of unbounded size.
+   PNG: DEFLATE is a parameter (inflate (deflate l) = Some l); chunk lengths and CRC-32 are proved for every chunk.  PBM/PAM/PPM: Props/C09_netpbm.v.''',
+   items=[('Lemmas/IterLemmas.v', ['iter_rows_is_pixel_grid', 'iter_rows_pixel', 'matrix_iter_spec', 'matrix_iter_only_ValueError']),
+          ('Lemmas/TextFmtLemmas.v', ['txt_roundtrip', 'xbm_roundtrip', 'xbm_pack_unpack', 'xpm_roundtrip', 'terminal_roundtrip', 'terminal_compact_roundtrip',
+                                     'write_xbm_errors', 'write_xpm_errors']),
+          ('Lemmas/PngLemmas.v', ['crc32_matches_spec', 'row_samples_pack', 'png_wellformed', 'png_roundtrip_two_colours', 'png_roundtrip_opts',
+                                  'png_err_scale', 'png_err_border', 'png_clr_map_err_class'])]),
+ 'C11_iter': dict(title='module iteration with scale and border; per-type colouring',
+   imports='Ref.IsoData Ref.Pixel Model.Iter Model.Color Model.Png Ref.PngReader Lemmas.IterLemmas Lemmas.PngLemmas',
+   intro='''Companion of Props/C11.v (classification): shape of matrix_iter / matrix_iter_verbose for unbounded scale and border, refusals, and the
+   colourful PNG theorem (pixel = colour configured for the module type).  Colourful SVG: Props/C10.v; colourful PPM: Props/C09_netpbm.v.''',
+   items=[('Lemmas/IterLemmas.v', ['iter_rows_is_pixel_grid', 'matrix_iter_error_iff', 'iter_verbose_rows_pixel', 'iter_verbose_rows_length']),
+          ('Lemmas/PngLemmas.v', ['png_roundtrip_opts'])]),
+ 'C12': dict(title='all output routes give the same document for the same symbol and options',
+   imports='Ref.IsoData Model.Color Model.Route Lemmas.RouteLemmas',
+   intro='''Only the ROUTING LOGIC is modelled (Model/Route.v): kind / extension resolution of writers.save, svgz, sequence file names, and which command
+   line values reach a serializer (cli.build_config) -- over tables dumped from the current source (serializer keys, keyword sets, argparse defaults,
+   serializer defaults).  That the same (serializer, keywords) gives the same bytes on every route is the determinism of the Python functions: sampled.''',
+   items=[('Lemmas/RouteLemmas.v', ['resolve_kind_case', 'resolve_unknown', 'resolve_total', 'resolve_kinds', 'resolve_svgz', 'cli_defaults_agree',
+                                    'cli_passes_only_supported', 'ext_tables_agree', 'sequence_filename_single', 'sequence_filename_shape'])]),
  'C01': dict(title='every symbol decodes back to exactly the content that was given',
    imports='Ref.IsoData Ref.Geometry Ref.Bch Ref.MaskCond Ref.Decoder Ref.Spec Model.Bits Model.Segment Model.Version Model.Stream Model.Matrix Model.Encode Lemmas.PackLemmas Lemmas.PadLemmas Lemmas.BlockLemmas Lemmas.PlaceLemmas Lemmas.ParseLemmas Lemmas.VersionLemmas Lemmas.IdemLemmas Lemmas.ExnLemmas Lemmas.RoundTrip',
    intro='''Decoder.decode_symbol is a reference reader written from ISO/IEC 18004 (format read, mask release, zig-zag reading, Table 9
@@ -128,7 +197,10 @@ def statements(path):
 
 
 def main():
+    only = set(a.lower() for a in sys.argv[1:])      # optional: generate only the listed properties
     for pid, spec in SPEC.items():
+        if only and pid.lower() not in only:
+            continue
         lines = ['(* %s -- %s.' % (pid, spec['title']),
                  '   GENERATED by gen/props.py: every statement below is copied verbatim from the lemma file and closed by [exact]. *)',
                  'From Coq Require Import String.', 'From Coq Require Import ZArith List Bool.',
@@ -142,7 +214,18 @@ def main():
             if wanted == ['*']:
                 continue
             for n in wanted:
-                if n not in st:
+                # a leading '@' marks a theorem stated inside a Section whose keyword is not indented
+                in_section = n.startswith('@')
+                n = n.lstrip('@')
+                if in_section or n not in st:
+                    txt_all = open(os.path.join(HERE, 'theories', path)).read()
+                    if re.search(r'^\s%s(Theorem|Lemma|Corollary)\s+%s\b' % ('*' if in_section else '+', re.escape(n)), txt_all, re.M):
+                        # stated inside a Section (generalised over the section variables when the section closes):
+                        # the statement is the type of the closed constant; it is printed by Check during compilation
+                        lines.append('(* %s is stated inside a Section of %s; its closed type (with the section variables as leading foralls) is: *)\n'
+                                     'Theorem %s_%s : ltac:(let t := type of (@%s) in exact t).\nProof. exact (@%s). Qed.\nCheck %s_%s.\n' % (n, path, pid, n, n, n, pid, n))
+                        names.append('%s_%s' % (pid, n))
+                        continue
                     print('WARNING: %s not found in %s' % (n, path), file=sys.stderr)
                     continue
                 lines.append('Theorem %s_%s :\n  %s.\nProof. exact (@%s). Qed.\n' % (pid, n, st[n], n))
